@@ -143,10 +143,11 @@ const (
 	fBadChecksum
 	fTruncated
 	fOversize
+	fVersionNeg // negative pver (-1): below every acceptable version
 	nFrameKinds
 )
 
-var frameNames = []string{"version", "version-low", "version-high", "version-obsolete", "version-min", "version-self", "version-nowitness", "verack", "sendaddrv2", "ping", "pong", "inv", "unknown-cmd", "wrong-magic", "bad-checksum", "truncated", "oversize-length"}
+var frameNames = []string{"version", "version-low", "version-high", "version-obsolete", "version-min", "version-self", "version-nowitness", "verack", "sendaddrv2", "ping", "pong", "inv", "unknown-cmd", "wrong-magic", "bad-checksum", "truncated", "oversize-length", "version-negative"}
 
 const lowPver = wire.BIP0037Version // 70001: below sendaddrv2/feefilter etc, above min acceptable
 
@@ -165,6 +166,8 @@ func buildFrame(kind int, selfNonce uint64, negotiated ...uint32) []byte {
 		return frame(versionMsg(int32(ourPver)+5, 1113, wire.SFNodeNetwork|wire.SFNodeWitness), 0, magic)
 	case fVersionObs:
 		return frame(versionMsg(int32(peer.MinAcceptableProtocolVersion)-1, 1114, wire.SFNodeNetwork), 0, magic)
+	case fVersionNeg:
+		return frame(versionMsg(-1, 1117, wire.SFNodeNetwork|wire.SFNodeWitness), 0, magic)
 	case fVersionMin:
 		return frame(versionMsg(int32(peer.MinAcceptableProtocolVersion), 1116, wire.SFNodeNetwork), 0, magic)
 	case fVersionSelf:
@@ -302,7 +305,7 @@ type refProto struct {
 	pongsDue        int
 }
 
-func isVersionKind(k int) bool { return k <= fVersionNoWit }
+func isVersionKind(k int) bool { return k <= fVersionNoWit || k == fVersionNeg }
 
 func (r *refProto) feed(kind int, allowSelf bool) {
 	if r.dead {
@@ -339,7 +342,7 @@ func (r *refProto) feed(kind int, allowSelf bool) {
 		}
 		theirs := map[int]uint32{fVersion: ourPver, fVersionLow: lowPver, fVersionHigh: ourPver + 5,
 			fVersionObs: peer.MinAcceptableProtocolVersion - 1, fVersionMin: peer.MinAcceptableProtocolVersion,
-			fVersionSelf: ourPver, fVersionNoWit: ourPver}[kind]
+			fVersionSelf: ourPver, fVersionNoWit: ourPver, fVersionNeg: 0}[kind] // a negative version is below everything
 		r.pver = theirs
 		if ourPver < theirs {
 			r.pver = ourPver
